@@ -91,6 +91,9 @@ def run(ctx):
         T = C.load_pinned_T()
         if "builder" not in T:
             return C.finish(ctx)
+    from props import common
+    if not broken:
+        common.wrapper_forwarding(ctx, T)
     rnd = random.Random(ctx.seed)
     reqs = []
     meta = {}
@@ -162,7 +165,8 @@ def run(ctx):
                     if idv != int(exp_id):
                         return f"`{c}` must return the explicit id, returned {o}"
                     continue
-                key = (name, tuple(parts[2:] if (name.endswith("_id") or name == "type_pointer") else parts[1:]))
+                # `type_x/args` and `type_x_id/-/args` are the same implicit request
+                key = (name[:-3] if name.endswith("_id") else name, tuple(parts[2:] if (name.endswith("_id") or name == "type_pointer") else parts[1:]))
                 if key in seen_req:
                     if seen_req[key] != idv and implicit_only:
                         return f"identical implicit request `{c}` returned {idv}, earlier {seen_req[key]}"
